@@ -386,7 +386,7 @@ def c15_build(dora, boots, src, kind, cg, gc, pert, outdir):
     if pert["aslr_off"]:
         cmd = ["setarch", "-R"] + cmd
     try:
-        p = subprocess.run(cmd, env=env, cwd=pert["cwd"], stdout=subprocess.PIPE, stderr=subprocess.PIPE, timeout=300)
+        p = run_group(cmd, env=env, cwd=pert["cwd"], timeout=300)
     except subprocess.TimeoutExpired:
         return -9, {}, "timeout"
     arts = {}
@@ -637,7 +637,7 @@ def c18(tier):
         else:
             cmd = [pkgrt, pkg]
         try:
-            p = subprocess.run(cmd, stdout=subprocess.PIPE, stderr=subprocess.PIPE, timeout=120, preexec_fn=limits, cwd=base)
+            p = run_group(cmd, timeout=120, preexec_fn=limits, cwd=base)
         except subprocess.TimeoutExpired:
             return {"rc": -9, "timeout": True, "stderr": "", "stdout": "", "sha": None}
         art = sha(out) if consumer != "decoder" and p.returncode == 0 and os.path.exists(out) else None
